@@ -134,9 +134,13 @@ namespace simmpi
     int wrank()   // world rank of the caller
     {
       if(!G) return 0;
-      auto it = G->rank_of_task.find(sim::self());
-      if(it == G->rank_of_task.end()) return 0;
-      return it->second;
+      // a helper thread created by a rank (FEAT_MPI_THREAD_MULTIPLE: SynchScalarTicket) acts for the rank of its creator
+      for(int t = sim::self(); t >= 0; t = sim::parent_of(t))
+      {
+        auto it = G->rank_of_task.find(t);
+        if(it != G->rank_of_task.end()) return it->second;
+      }
+      return 0;
     }
 
     CommRec& comm_rec(MPI_Comm c, const char* fn)
